@@ -1,7 +1,7 @@
 # C02 — lazily served files and metadata equal the source tar under any access history
 PROPS["C02"] = dict(
     props_file="Properties/C02.v",
-    harnesses=[dict(cmd="serve", mod="root", model="Model.Serve", quick=60, thorough=2000, shard=6, coq_jobs=12,
+    harnesses=[dict(cmd="serve", mod="root", model="Model.Serve", quick=60, thorough=2000, shard=6, coq_jobs=12, race=150,
                     preamble="From SV Require Import Model.ChunkRead Model.TarView.",
                     require=["kind.serve", "kind.clean", "kind.attr", "cache.mem", "cache.dir1", "cache.dirdirect", "cache.dirasync",
                              "build.gzip", "build.zstd", "build.min_chunk_size", "build.prioritized", "build.workers>1",
